@@ -12,6 +12,7 @@ CONSTANTS
   DeadVals = {FALSE}
   FixLedger = TRUE
   FixNominate = TRUE
+  FixOrphan = TRUE
   AllowMigrate = FALSE
   Recording = FALSE
   K = 0
